@@ -268,7 +268,7 @@ class Render:
         h = ((h ^ (h >> 27)) * 0x94D049BB133111EB) & m
         h ^= h >> 31
         form, h = h % 16, h // 16
-        tkind, h = h % 3, h // 3
+        tkind, h = h % 6, h // 6
         ekind, h = h % 4, h // 4
         ikind, h = h % 3, h // 3
         end = ";" if semi else ""
@@ -282,9 +282,28 @@ class Render:
         elif tkind == 1:
             a = idx[ikind]
             tt, ts = "q%d[%s]" % (i, a[0]), "(V q%d %s)" % (i, a[1])
-        else:
+        elif tkind == 2:
             a, b = idx[ikind], idx[(ikind + 1) % 3]
             tt, ts = "q%d[%s][%s]" % (i, a[0], b[0]), "(V q%d %s %s)" % (i, a[1], b[1])
+        elif tkind == 3:
+            # fourth audit: three (and four) indices - the read side of the expansion must repeat ALL of them
+            a, b, c = idx[ikind], idx[(ikind + 1) % 3], idx[(ikind + 2) % 3]
+            if h % 2:
+                tt, ts = "q%d[%s][%s][%s]" % (i, a[0], b[0], c[0]), "(V q%d %s %s %s)" % (i, a[1], b[1], c[1])
+            else:
+                tt = "q%d[%s][%s][%s][%s]" % (i, a[0], b[0], c[0], a[0])
+                ts = "(V q%d %s %s %s %s)" % (i, a[1], b[1], c[1], a[1])
+        elif tkind == 4:
+            # component access in the target: c.port, c.port[i], c.port[i][j][k]
+            a, b, c = idx[ikind], idx[(ikind + 1) % 3], idx[(ikind + 2) % 3]
+            tt, ts = [("q%d.y" % i, "(V q%d (. y))" % i),
+                      ("q%d.y[%s]" % (i, a[0]), "(V q%d (. y) %s)" % (i, a[1])),
+                      ("q%d.y[%s][%s][%s]" % (i, a[0], b[0], c[0]), "(V q%d (. y) %s %s %s)" % (i, a[1], b[1], c[1]))][h % 3]
+        else:
+            # component array: c[i].port, c[i][j].port[k]
+            a, b, c = idx[ikind], idx[(ikind + 1) % 3], idx[(ikind + 2) % 3]
+            tt, ts = [("q%d[%s].z" % (i, a[0]), "(V q%d %s (. z))" % (i, a[1])),
+                      ("q%d[%s][%s].z[%s]" % (i, a[0], b[0], c[0]), "(V q%d %s %s (. z) %s)" % (i, a[1], b[1], c[1]))][h % 2]
         if form == 12:
             text, sx = tt + "++", "(Inc %s)" % ts
         elif form == 13:
@@ -363,6 +382,134 @@ def render(body, rich=None):
     r = Render(rich)
     text, sx = r.stmt(body)
     return "function f(x) %s" % text, sx, r.depth
+
+
+# --------------------------------------------------------------------------
+# fourth audit: skeletons rendered as TEMPLATES with content (C12's template stage)
+# --------------------------------------------------------------------------
+
+def skeleton_features(s):
+    """{'bare', 'else_if', 'nested_block', 'empty_block', 'if_no_else_ends_loop'} present in a skeleton, and its
+    maximal loop nesting -> (set, int)."""
+    feats = set()
+
+    def go(x, in_block, loops):
+        k = x[0]
+        best = loops
+        if k == 'B':
+            if in_block:
+                feats.add('nested_block')
+            if len(x) == 1:
+                feats.add('empty_block')
+            for c in x[1:]:
+                best = max(best, go(c, True, loops))
+        elif k in 'WF':
+            body = x[1] if k == 'W' else x[2]
+            if body[0] != 'B':
+                feats.add('bare')
+            elif len(body) > 1 and body[-1][0] == 'I' and k == 'W':
+                feats.add('if_no_else_ends_loop')
+            best = max(best, go(body, False, loops + 1))
+        elif k == 'I':
+            if x[1][0] != 'B':
+                feats.add('bare')
+            best = max(best, go(x[1], False, loops))
+        elif k == 'E':
+            if x[1][0] != 'B' or x[2][0] not in 'BIE':
+                feats.add('bare')
+            if x[2][0] in 'IE':
+                feats.add('else_if')
+            best = max(best, go(x[1], False, loops), go(x[2], False, loops))
+        return best
+    depth = go(s, False, 0)
+    return feats, depth
+
+
+class TemplateRender:
+    """Renders a skeleton as the body of a TEMPLATE whose leaves are real template statements (signal and component
+    declarations, `<==`, `<--`, `===`, assert, log, local assignments), chosen by a fixed function of (salt, position).
+    Only the liftfull stages use it: they need no ids in the text (statements are named by their spans)."""
+
+    def __init__(self, salt):
+        self.salt = salt
+        self.n = 0
+
+    def pick(self, m):
+        self.n += 1
+        h = ((self.salt + 1) * 0x9E3779B97F4A7C15 + self.n * 0xD1B54A32D192ED03) & ((1 << 64) - 1)
+        h ^= h >> 29
+        return self.n, (h * 0xBF58476D1CE4E5B9 >> 17) % m
+
+    def leaf(self, semi=True, decl_ok=True):
+        i, k = self.pick(9)
+        if not decl_ok and k in (1, 6):       # a declaration is a block element only (lang.lalrpop: not a ParseStatement2)
+            k = 2 if k == 1 else 8
+        end = ";" if semi else ""
+        if not semi:                      # for-header position: an assignment only
+            return ["v += %d" % i, "v = v * %d + a" % i, "w[%d] = v" % (i % 4)][k % 3]
+        return ["v += %d;" % i, "signal t%d;" % i, "b <-- a * %d + v;" % i, "a * v === %d;" % i, "log(\"l%d\", v);" % i,
+                "assert(v != %d);" % i, "component c%d = A();" % i, "w[%d] = a + v;" % (i % 4), "m[%d] <== a * %d;" % (i % 4, i)][k] \
+            if end else ""
+
+    def init(self, pat, semi=True):
+        syms = []
+        for k in pat:
+            i, _ = self.pick(2)
+            syms.append("d%d = %d" % (i, i) if k == 2 else "d%d" % i)
+        return "var " + ", ".join(syms) + (";" if semi else "")
+
+    def cond(self):
+        i, k = self.pick(3)
+        return ["v < %d" % i, "a == %d" % i, "(v + %d) %% 2 == 0" % i][k]
+
+    def stmt(self, s, in_block=False):
+        k = s[0]
+        if k in 'LR':
+            return self.leaf(decl_ok=in_block)
+        if k == 'N':
+            return self.init(s[1])
+        if k == 'B':
+            parts = [self.stmt(c, True) for c in s[1:]]
+            return "{ " + " ".join(parts) + " }" if parts else "{ }"
+        if k == 'W':
+            c = self.cond()
+            return "while (%s) %s" % (c, self.stmt(s[1]))
+        if k == 'I':
+            c = self.cond()
+            return "if (%s) %s" % (c, self.stmt(s[1]))
+        if k == 'E':
+            c = self.cond()
+            t = self.stmt(s[1])
+            return "if (%s) %s else %s" % (c, t, self.stmt(s[2]))
+        if k == 'F':
+            ini = self.leaf(semi=False) if s[1][0] == 'L' else self.init(s[1][1], semi=False)
+            c = self.cond()
+            st = self.leaf(semi=False)
+            return "for (%s; %s; %s) %s" % (ini, c, st, self.stmt(s[2]))
+        raise ValueError(s)
+
+
+def render_template(body, salt):
+    """Source of a program with helper template A and template T whose body is the skeleton with template content."""
+    r = TemplateRender(salt)
+    inner = r.stmt(body)
+    return ("template A() { signal input x; signal output y; y <== x; } template T(n) { signal input a; signal output b; "
+            "signal m[4]; var v = 0; var w[4]; %s b <== a + v; }" % inner)
+
+
+def deep_nest(k, salt):
+    """A skeleton with k nested loops (while / for alternating, some bare), an `else if` chain and an if without else
+    closing the innermost loop body after an empty block."""
+    inner = ('B', ('L',), ('B',), ('E', ('L',), ('E', ('B', ('L',)), ('I', ('L',)))), ('I', ('L',)))
+    s = inner
+    for j in range(k):
+        if (j + salt) % 3 == 0:
+            s = ('W', s if s[0] == 'B' or j % 2 else ('B', s))
+        elif (j + salt) % 3 == 1:
+            s = ('F', ('L',) if j % 2 else ('N', (2, 1)), s if s[0] in 'BWF' else ('B', s))
+        else:
+            s = ('W', ('B', ('L',), s, ('L',)))
+    return ('B', ('L',), s, ('L',))
 
 
 def hexline(text):
@@ -512,11 +659,40 @@ def wellformed_failures(blocks, depth_of, nest=None):
     # loop depth and every item exactly once
     if nest is not None:
         got = [(it[1], b["depth"]) for b in blocks for it in b["items"] if it[0] != 'P']
+        # (a) the clause of the property text: the recorded loop depth of a block is the number of loops whose body
+        # holds its statements.  A statement of the graph is located by its SPAN: the depth(s) of the source
+        # statement(s) with that span, else (fourth audit: a lifting that takes the meta of a `while` arm from its
+        # condition, or makes two IR statements of one source statement, touches no clause of the property) the depth
+        # of the innermost source statement whose span contains it.
+        allowed, spans = {}, []
+        for ident, dep in nest:
+            allowed.setdefault(ident, set()).add(dep)
+            try:
+                a, z = ident.split("_")
+                spans.append((int(a), int(z), dep))
+            except ValueError:
+                pass
+        for ident, dep in got:
+            if ident in allowed:
+                if dep not in allowed[ident]:
+                    bad.append("a block with loop depth %d holds the statement at %s, which lies in %s loop bodies"
+                               % (dep, ident, sorted(allowed[ident])))
+                continue
+            try:
+                a, z = (int(x) for x in ident.split("_"))
+            except ValueError:
+                continue
+            encl = [(z2 - a2, d2) for a2, z2, d2 in spans if a2 <= a and z <= z2]
+            if encl and dep != min(encl)[1]:
+                bad.append("a block with loop depth %d holds a statement at %s, inside the source statement of nesting %d"
+                           % (dep, ident, min(encl)[1]))
+        # (b) a clause of the CHECK (C12_loop_depth_is_nesting / C12_every_item_exactly_once about the mirror), not of
+        # the property text: statement identity by span - every source statement exactly once, in source order
         if got != list(nest):
             k = 0
             while k < min(len(got), len(nest)) and got[k] == tuple(nest[k]):
                 k += 1
-            bad.append("the statements of the graph in block order with the loop depth of their block differ from the "
+            bad.append("IDENTITY: the statements of the graph in block order with the loop depth of their block differ from the "
                        "statements of the source in source order with their syntactic loop nesting at position %d: graph %s, "
                        "source %s (%d / %d items)" % (k, got[k:k + 2], list(nest[k:k + 2]), len(got), len(nest)))
         return bad
